@@ -111,9 +111,16 @@ def judge_decode(ctx, sp, x, y, tr):
     STATE["last"] = inst
     A = sp.bin_width * sp.bin_height
     desc = wb.desc_of(inst, "generated")
-    if inst.name != sp.inst_name:
-        ctx.violation("generated-name", f"{inst.name!r} != {sp.inst_name!r}",
-                      case)
+    tname = STATE.get("template_name")
+    if inst.name != sp.inst_name or (tname is not None and (
+            inst.name == tname or not inst.name.startswith(tname))):
+        # "the template's (suffixed) name": the template's name plus a
+        # non-empty suffix, judged against the TEMPLATE, not against what
+        # the space says the name should be
+        ctx.violation("generated-name",
+                      f"generated instance is called {inst.name!r}; the "
+                      f"template is {tname!r}, the space announces "
+                      f"{sp.inst_name!r}", case)
     if inst.bin_width != sp.bin_width or inst.bin_height != sp.bin_height:
         ctx.violation("generated-bin-size", "bin size differs", case)
     if inst.n_items != sp.n_items:
@@ -296,6 +303,12 @@ def get_template(rng, tcase):
     from moptipyapps.binpacking2d.instance import Instance
     if isinstance(tcase, str):
         return Instance.from_resource(tcase)
+    if "name_suffix" not in tcase:
+        # a template may itself be a generated instance ("a04n") or simply
+        # be called like one
+        tcase["name_suffix"] = str(rng.choice(["", "", "n", "7n", "_n",
+                                               "nn"]))
+        tcase["name"] = tcase["name"] + tcase["name_suffix"]
     return wb.make_real(tcase)
 
 
@@ -306,6 +319,7 @@ def one(ctx, tcase, k, x=None, tag=None):
     install(ctx)
     rng = ctx.rng
     templ = get_template(rng, tcase)
+    STATE["template_name"] = str(templ.name)
     try:
         sp = InstanceSpace(templ)
     except ValueError:
